@@ -125,8 +125,23 @@ def pick_name(obj, sel):
     return sel[1]
 
 
-def apply_op(obj, op, labels):
-    """Apply a JSON op; returns util.Outcome. (The caller decides what the outcome should have been.)"""
+def apply_op(obj, op, labels, keep=None):
+    """Apply a JSON op; returns util.Outcome. (The caller decides what the outcome should have been.)
+    If `keep` is a list, the decoded ndarray operands are appended to it (so that the caller can mutate them afterwards)."""
+    if keep is not None:
+        global dec_operand
+        original = dec_operand
+
+        def dec_and_keep(o):
+            v = original(o)
+            if isinstance(v, np.ndarray):
+                keep.append(v)
+            return v
+        dec_operand = dec_and_keep
+        try:
+            return apply_op(obj, op, labels)
+        finally:
+            dec_operand = original
     kind = op[0]
     if kind == 'add_variable':
         name = pick_name(obj, op[1])
